@@ -795,3 +795,90 @@ def check_dfa_constructions(ctx, rep, funcs, rule=RULE + '.M21'):
         except (Unsupported, RecursionError) as e:
             rep.undecided(rule, f, 'def ' + f.name, 'outside the evaluator: {}'.format(e))
     return total
+
+
+# ---- the regular-expression matcher on model expressions ------------------------------------------------------------------------
+
+def _rx(t):
+    k = t[0]
+    if k in ('Zero', 'One'):
+        return Obj(k)
+    if k == 'Symbol':
+        return Obj('Symbol', symbol=t[1])
+    if k == 'Iteration':
+        return Obj('Iteration', operand=_rx(t[1]))
+    return Obj(k, left=_rx(t[1]), right=_rx(t[2]))
+
+
+def _rx_lang(t, k):
+    """words up to length k of the denoted language (set semantics, in the analyser)"""
+    kind = t[0]
+    if kind == 'Zero':
+        return set()
+    if kind == 'One':
+        return {''}
+    if kind == 'Symbol':
+        return {t[1]} if len(t[1]) <= k else set()
+    if kind == 'Sum':
+        return _rx_lang(t[1], k) | _rx_lang(t[2], k)
+    if kind == 'Concat':
+        return {u + v for u in _rx_lang(t[1], k) for v in _rx_lang(t[2], k) if len(u + v) <= k}
+    L = _rx_lang(t[1], k)
+    out, frontier = {''}, {''}
+    while frontier:
+        frontier = {u + v for u in frontier for v in L if v and len(u + v) <= k} - out
+        out |= frontier
+    return out
+
+
+def _rx_str(t):
+    k = t[0]
+    if k == 'Zero':
+        return '0'
+    if k == 'One':
+        return '1'
+    if k == 'Symbol':
+        return t[1]
+    if k == 'Iteration':
+        return '(' + _rx_str(t[1]) + ')*'
+    return '(' + _rx_str(t[1]) + ('+' if k == 'Sum' else '.') + _rx_str(t[2]) + ')'
+
+
+def _model_regexps():
+    a, b, one, zero = ('Symbol', 'a'), ('Symbol', 'b'), ('One',), ('Zero',)
+    S = lambda x, y: ('Sum', x, y)       # noqa: E731
+    C = lambda x, y: ('Concat', x, y)    # noqa: E731
+    I = lambda x: ('Iteration', x)       # noqa: E731
+    return [zero, one, a, S(a, b), C(a, b), I(a), C(I(a), b), C(one, b), C(b, one), C(I(a), I(b)), I(C(one, a)), C(a, a), I(I(a)), I(S(a, one)), I(S(one, one)), I(zero),
+            C(zero, a), S(zero, a), I(C(a, b)), C(I(S(a, b)), C(b, S(a, b))), I(C(I(a), I(b))), C(C(a, I(b)), a), S(C(a, b), C(b, a)), I(S(C(a, a), b)), C(S(one, a), S(one, b)),
+            C(I(a), C(I(b), a)), I(C(a, I(a))), C(a, C(b, a)), C(C(a, b), a), S(I(a), C(b, I(a))),
+            # the first / shortest split that matches is a dead end, a later one succeeds
+            I(S(a, C(a, b))), C(S(a, C(a, b)), b), C(I(a), a), I(S(C(a, b), a)), C(I(S(a, C(a, b))), b)]
+
+
+def check_regexp_matcher(ctx, rep, f, rule=RULE + '.M22'):
+    """regexp_accepts_word on 35 model expressions (every constructor under every other, stars over expressions that match the
+    empty word, nested stars, concatenations whose left or right part matches the empty word, 0 inside) and all words over
+    {a, b} up to length 3: the answer is membership in the denoted language (set semantics computed by the analyser)."""
+    cases = 0
+    words = [''.join(w) for n in range(4) for w in itertools.product('ab', repeat=n)]
+    try:
+        for t in _model_regexps():
+            L = _rx_lang(t, 3)
+            r = _rx(t)
+            for w in words:
+                it = _interp(ctx, 'asc', max_steps=400000)
+                it.superclasses = {k: ('Regexp',) for k in ('Zero', 'One', 'Symbol', 'Iteration', 'Sum', 'Concat')}
+                ok, got = _run(rule, rep, f, lambda: it.call(f, [r, w]), 'on the expression {} and the word {!r}'.format(_rx_str(t), w))
+                if not ok:
+                    return
+                cases += 1
+                if bool(got) != (w in L) or not isinstance(got, bool):
+                    if not isinstance(got, bool):
+                        raise Unsupported('the answer is not a boolean')
+                    rep.violates(rule, f, 'def ' + f.name, 'the expression {} {} the word {!r}, which is {} the denoted language'.format(_rx_str(t), 'matches' if got else 'does not match', w, 'not in' if got else 'in'))
+                    return
+    except (Unsupported, RecursionError) as e:
+        rep.undecided(rule, f, 'def ' + f.name, 'outside the evaluator: {}'.format(e))
+        return
+    rep.holds(rule, f, 'def ' + f.name, 'on {} evaluations (35 model expressions with nested stars, stars over expressions matching the empty word, concatenations with an empty-matching side, splits whose first match is a dead end, 0 inside; all words over {{a, b}} up to length 3) the answer is membership in the denoted language'.format(cases))
